@@ -18,7 +18,7 @@ func init() {
 		Doc: "for every key algorithm name of the schema: name -> constant (keyAlgorithms) -> key kind (keyTypes) -> RSA bit size equal to the number in the name / the library curve function of that name (curves); defaults as documented"})
 	register(&Rule{Name: "TAB-CURVEOID", Floor: 20, Run: ruleTabCurveOid,
 		Doc: "curveNameOids pairs every curve with its RFC 5480/5639 OID and namedCurveFromOID is its inverse for all ten curves"})
-	register(&Rule{Name: "TAB-ALGOID", Floor: 6, Run: ruleTabAlgOid,
+	register(&Rule{Name: "TAB-ALGOID", Floor: 3, Run: ruleTabAlgOid,
 		Doc: "SubjectPublicKeyInfo / PKCS#8 algorithm identifiers: rsaEncryption with NULL parameters, id-ecPublicKey with the named-curve OID; writer and reader use the same OIDs"})
 }
 
@@ -906,10 +906,11 @@ func ruleTabAlgOid(c *Ctx, r *Rep) {
 	// handle keys (SetPrivateKey, MarshalPKCS8PrivateKey) and every Equal() comparison in ParsePKCS8PrivateKey
 	// must use one of the two reference OIDs, paired with the right parameters.
 	type site struct {
-		fn  *ssa.Function
-		pos token.Pos
-		oid string
-		st  *ssa.Store
+		fn     *ssa.Function
+		pos    token.Pos
+		oid    string
+		st     *ssa.Store
+		params string // for a whole identifier assigned at once: what its Parameters are
 	}
 	var sites []site
 	for _, fn := range c.Funcs {
@@ -926,12 +927,54 @@ func ruleTabAlgOid(c *Ctx, r *Rep) {
 				if !ok || fieldOfAddr(fa).Name() != "Algorithm" || !typeIs(fa.X.Type().Underlying().(*types.Pointer).Elem(), "crypto/x509/pkix", "AlgorithmIdentifier") {
 					continue
 				}
+				if _, isParam := st.Val.(*ssa.Parameter); isParam {
+					continue // a constructor helper: its call sites are the assignments (below)
+				}
 				d := c.describe(ev, st.Val, 0)
 				if d.Kind != "ints" {
 					r.Undecided("shape:"+c.FuncKey(fn)+"|alg-store", c.Pos(st.Pos()), "algorithm OID is not a package-level literal: "+d.String())
 					continue
 				}
-				sites = append(sites, site{fn, st.Pos(), oidString(d.Ints), st})
+				sites = append(sites, site{fn, st.Pos(), oidString(d.Ints), st, ""})
+			}
+		}
+	}
+	// whole identifiers assigned at once (a literal, or a constructor helper applied to an OID and parameters)
+	for _, fn := range c.Funcs {
+		if !strings.HasSuffix(fn.Pkg.Pkg.Path(), "generator/cert") || fn == mustSign(c) {
+			continue
+		}
+		for _, b := range fn.Blocks {
+			for _, ins := range b.Instrs {
+				st, ok := ins.(*ssa.Store)
+				if !ok || !typeIs(st.Val.Type(), "crypto/x509/pkix", "AlgorithmIdentifier") {
+					continue
+				}
+				lf := literalFields(c, st.Val)
+				if lf == nil || lf["Algorithm"] == nil {
+					continue
+				}
+				if _, isCall := st.Val.(*ssa.Call); !isCall {
+					continue // a literal built in place: its field stores were seen above
+				}
+				d := c.describe(ev, lf["Algorithm"], 0)
+				if d.Kind != "ints" {
+					r.Undecided("shape:"+c.FuncKey(fn)+"|alg-store", c.Pos(st.Pos()), "algorithm OID is not a package-level literal: "+d.String())
+					continue
+				}
+				pk := "none"
+				if pvv := lf["Parameters"]; pvv != nil {
+					pd := c.describe(ev, pvv, 0)
+					switch {
+					case pd.Name == "encoding/asn1.NullRawValue" || strings.Contains(pd.String(), "NullRawValue"):
+						pk = "NULL"
+					case curveOidRawValue(c, pvv):
+						pk = "curve-oid"
+					default:
+						pk = pd.String()
+					}
+				}
+				sites = append(sites, site{fn, st.Pos(), oidString(d.Ints), st, pk})
 			}
 		}
 	}
@@ -947,7 +990,10 @@ func ruleTabAlgOid(c *Ctx, r *Rep) {
 			continue
 		}
 		// parameters stored next to it, in the same function under the same guards
-		params := paramsStoredWith(c, ev, s.st)
+		params := s.params
+		if params == "" {
+			params = paramsStoredWith(c, ev, s.st)
+		}
 		switch kind {
 		case "rsaEncryption":
 			r.Check(params == "NULL", "spki-params|"+key, c.Pos(s.pos), "NULL parameters (RFC 3279 2.3.1)", params)
@@ -1043,6 +1089,29 @@ func paramsStoredWith(c *Ctx, ev *evaluator, st *ssa.Store) string {
 				if g := x.Call.StaticCallee(); g != nil && c.InModule(g) && g.Blocks != nil && (x.Block() == st.Block() || x.Block().Dominates(st.Block()) || st.Block().Dominates(x.Block())) {
 					for _, ci := range callsIn(g) {
 						if calleeFullName(ci) != "encoding/asn1.Unmarshal" {
+							continue
+						}
+						// the helper is handed the address of the Parameters field itself
+						if pp, isParam := unwrapIface(ci.Common().Args[1]).(*ssa.Parameter); isParam {
+							for i, q := range g.Params {
+								if q != pp || i >= len(x.Call.Args) {
+									continue
+								}
+								if faArg, ok := x.Call.Args[i].(*ssa.FieldAddr); ok && fieldOfAddr(faArg).Name() == "Parameters" && sameBase(faArg.X) {
+									found = "unmarshal of something else"
+									for _, pe := range phiEdges(ci.Common().Args[0], nil) {
+										if ex, ok := pe.Val.(*ssa.Extract); ok {
+											if mc, ok := ex.Tuple.(*ssa.Call); ok && calleeFullName(mc) == "encoding/asn1.Marshal" {
+												for j, q2 := range g.Params {
+													if unwrapIface(mc.Call.Args[0]) == ssa.Value(q2) && j < len(x.Call.Args) && isCurveOidLookup(c, x.Call.Args[j]) {
+														found = "curve-oid"
+													}
+												}
+											}
+										}
+									}
+								}
+							}
 							continue
 						}
 						fa2, ok := unwrapIface(ci.Common().Args[1]).(*ssa.FieldAddr)
